@@ -224,6 +224,10 @@ func (ex *Exec) chanSend(fr *frame, in ssa.Instruction, chv Value, v Value) {
 	if ch.Closed {
 		panic(&targetPanic{v: Str{S: "send on closed channel"}, runtime: true, msg: "send on closed channel", site: ex.instrPos(fr, in)})
 	}
+	if ch.Handler != nil {
+		ex.call(fr, ch.Handler, []Value{copyVal(v)}, in)
+		return
+	}
 	if len(ch.Buf) >= ch.Cap+ex.cfg.ChanSlack {
 		panic(pathEnd{endInconclusive, "would block: send on full/unbuffered channel at " + ex.instrPos(fr, in) + " (tier 1 has one logical thread)"})
 	}
@@ -289,7 +293,7 @@ func (ex *Exec) selectStmt(fr *frame, instr *ssa.Select) Value {
 				break
 			}
 		} else {
-			if ch.Closed || len(ch.Buf) < ch.Cap+ex.cfg.ChanSlack {
+			if ch.Closed || ch.Handler != nil || len(ch.Buf) < ch.Cap+ex.cfg.ChanSlack {
 				ex.chanSend(fr, instr, ch, fr.get(st.Send))
 				chosen = i
 				break
